@@ -1,6 +1,6 @@
 (* Properties_C20.v — obligations of property C20 (all four build configurations decode
    identically, modulo charset width).  PARTIAL: see the end of the file. *)
-Require Import ObsRun Lemmas_Tables Lemmas_Narrow Lemmas_Step Lemmas_WF.
+Require Import ObsRun Lemmas_TabConv Lemmas_Narrow Lemmas_Step Lemmas_WF.
 Local Open Scope Z_scope.
 
 (* the character graph measured on the non-unicode build: control codes not stored (0x0D = end of
